@@ -118,6 +118,9 @@ type World struct {
 	failPlan     map[int]bool // index of Accept call (as seen by the exporter) -> fail
 	exporterDown bool
 	honorCancel  bool
+	streakEp     int  // pipeline instance of the current run of "ctx" refusals
+	streak       int  // its length
+	stuck        bool // streak reached NoProgressK
 
 	jmu       sync.Mutex
 	jitter    *rand.Rand
@@ -625,23 +628,45 @@ func (d *recDriver) Accept(ctx context.Context, logs ...drivers.LogWithLedger) (
 	if bad {
 		w.harnessErr("Accept: log without id or with a foreign ledger")
 	}
-	ok := true
+	// Why a refusal: "forced" (schedule replay), "down"/"plan" (charged to the scenario's failure budget),
+	// "ctx" (a healthy exporter honouring its context, as drivers.Batcher does: the context it was
+	// given is already cancelled).  Only "ctx" refusals are outside the failure budget.
+	ok, why := true, ""
 	switch {
 	case c.verdict == 1:
 	case c.verdict == 2:
-		ok = false
+		ok, why = false, "forced"
 	case w.exporterDown:
-		ok = false
+		ok, why = false, "down"
 	case w.honorCancel && ctx.Err() != nil:
-		ok = false
+		ok, why = false, "ctx"
 	default:
 		if w.failPlan[w.acceptIdx] {
-			ok = false
+			ok, why = false, "plan"
 		}
 		w.acceptIdx++
 	}
-	w.stamp(Event{K: "Accept", Ep: c.Ep, Ids: ids, Ok: ok})
+	w.stamp(Event{K: "Accept", Ep: c.Ep, Ids: ids, Ok: ok, Name: why})
+	// count-based progress oracle (same rule as Evaluate / TraceReplication.tla): K consecutive refusals
+	// of a healthy exporter to the same pipeline instance, with no batch accepted in between
+	switch {
+	case ok:
+		w.streakEp, w.streak = c.Ep, 0
+	case why == "ctx" && w.streakEp == c.Ep:
+		w.streak++
+	case why == "ctx":
+		w.streakEp, w.streak = c.Ep, 1
+	}
+	if w.streak >= NoProgressK && !w.closed {
+		// the verdict is in the recorded prefix: stop recording (the pipeline would retry forever)
+		w.stuck = true
+		w.closed = true
+		w.cond.Broadcast()
+	}
 	if !ok {
+		if why == "ctx" {
+			return nil, ctx.Err()
+		}
 		return nil, errors.New("recording exporter: scripted failure")
 	}
 	if !w.closed {
